@@ -11,7 +11,7 @@ from worlds.base import SimulatedFailure, enc, dec, call
 from worlds.gmodel import IxM, DATE_UNITS, GO_OF, STATIC_OF, is_go, unhashable, expected_index_snap, learn_index
 
 STRS = list('abcdefgh')
-INTS = list(range(10))
+INTS = list(range(10)) + [-1, -3]  # negative integers are labels too (and look like positions)
 DATES = {
     'D': ['2020-01-%02d' % i for i in range(1, 11)],
     'M': ['2020-%02d' % i for i in range(1, 11)],
@@ -45,20 +45,14 @@ def label_pool(m):
 
 
 def raw_duplicates(obj):
-    '''True if two labels held by the index are equal by Python equality (the library's notion of a duplicate).'''
+    '''True if two labels held by the index are the same key of a hash map (equal AND equally hashed): the library's
+    notion of a duplicate. (`datetime.date(2013, 1, 1) == numpy.datetime64('2013')` is True under NumPy 2, but the two
+    hash differently and are different keys - and different labels - for every dict, set and for the index.)'''
     try:
         raw = [tuple(r) for r in obj.values] if obj.depth > 1 else list(obj.values)
+        return len(set(raw)) != len(raw)
     except Exception:
         return True
-    for i in range(len(raw)):
-        for j in range(i + 1, len(raw)):
-            try:
-                a, b = raw[i], raw[j]
-                if (all(x == y for x, y in zip(a, b)) if isinstance(a, tuple) else bool(a == b)):
-                    return True
-            except Exception:
-                continue
-    return False
 
 
 class IndexOps:
